@@ -143,6 +143,37 @@ func init() {
 		return nil, actDone
 	})
 	reg(vrt+"Thorough", func(r *Run, g *G, a []Value) (Value, action) { return r.eng.opts.Tier == "thorough", actDone })
+	// Quiesce lets every other goroutine run until none of them can make progress (no schedule
+	// exploration): used by harnesses to wait for fire-and-forget goroutines of the code under test.
+	reg(vrt+"Quiesce", func(r *Run, g *G, a []Value) (Value, action) {
+		for {
+			progressed := false
+			for i := 0; i < len(r.gs); i++ {
+				og := r.gs[i]
+				if og == g || og.state != GRunnable {
+					continue
+				}
+				saved := r.cur
+				r.cur = og
+				for og.state == GRunnable {
+					r.step(og)
+				}
+				r.cur = saved
+				progressed = true
+			}
+			if !progressed {
+				break
+			}
+		}
+		return nil, actSync
+	})
+	// byte-slice equality as ONE term instead of a byte-wise loop of branches
+	bytesEq := func(r *Run, g *G, a []Value) (Value, action) {
+		return eqStr(r.symOf(a[0]), r.symOf(a[1])), actDone
+	}
+	reg("internal/bytealg.Equal", bytesEq)
+	reg(vrt+"ModelBytesEqual", bytesEq)
+	reg("bytes.Equal", bytesEq)
 	reg(vrt+"SyncPoint", func(r *Run, g *G, a []Value) (Value, action) { return nil, actSync })
 	reg(vrt+"RunHarness", func(r *Run, g *G, a []Value) (Value, action) {
 		engineFail("RunHarness is native-only")
